@@ -45,6 +45,13 @@ pub open spec fn undo_last_first(m: State, cs: Seq<TransactionChange>, n: int) -
     if n >= cs.len() { m } else { undo_one(undo_last_first(m, cs, n + 1), cs[n]) }
 }
 
+/// IndexMetadata: the definition of a user-defined index
+#[verifier::external_body] pub struct Cols { c: u8 }
+impl Cols { #[verifier::external_body] pub fn clone(&self) -> (r: Cols) ensures r == *self { unimplemented!() } }
+pub struct Def { pub index_name: Str, pub table_name: Str, pub unique: bool, pub columns: Cols }
+impl Def { #[verifier::external_body] pub fn clone(&self) -> (r: Def) ensures r == *self { unimplemented!() } }
+/// normalize_index_name
+pub uninterp spec fn nkey(name: Str) -> Seq<char>;
 pub struct Database { pub o: u8 }
 impl Database {
     pub uninterp spec fn view(&self) -> State;
@@ -102,7 +109,44 @@ impl Database {
     // self.lifecycle.perform_rollback(&mut self.catalog, &mut self.tables): restores catalog and table contents from the snapshot; says nothing about indexes
     #[verifier::external_body]
     fn perform_rollback(&mut self) -> (r: Result<(), StorageError>)
-        ensures final(self).indexed() == old(self).indexed()
+        ensures final(self).indexed() == old(self).indexed(), final(self).reg() == old(self).reg(), final(self).snapshot() == old(self).snapshot()
+    { unimplemented!() }
+    // ---- the registry of user-defined indexes: normalized index name -> definition ----
+    pub uninterp spec fn reg(&self) -> Map<Seq<char>, Def>;
+    /// the index definitions recorded at BEGIN (None: no snapshot)
+    pub uninterp spec fn snapshot(&self) -> Option<Seq<Def>>;
+    /// registry invariant: an entry is keyed by the normalized name of its definition
+    pub open spec fn reg_wf(&self) -> bool { forall|x: Seq<char>| #![trigger self.reg().dom().contains(x)] self.reg().dom().contains(x) ==> nkey(self.reg()[x].index_name) == x }
+    // self.indexes_at_begin.take()
+    #[verifier::external_body]
+    fn take_indexes_at_begin(&mut self) -> (r: Option<Vec<Def>>)
+        ensures final(self).view() == old(self).view(), final(self).reg() == old(self).reg(),
+                match old(self).snapshot() { Some(d) => r is Some && r->Some_0@ == d, None => r is None }
+    { unimplemented!() }
+    // self.list_indexes(): the registry keys
+    #[verifier::external_body]
+    fn list_indexes(&self) -> (r: Vec<Str>)
+        ensures forall|x: Seq<char>| #![trigger self.reg().dom().contains(x)] self.reg().dom().contains(x) <==> exists|k: int| 0 <= k < r@.len() && nkey(#[trigger] r@[k]) == x
+    { unimplemented!() }
+    // `self.get_index(&name).is_some_and(|current| definitions.iter().any(|d| d.index_name == current.index_name && d.table_name == current.table_name && d.unique == current.unique && d.columns == current.columns))`
+    #[verifier::external_body]
+    fn is_kept(&self, name: &Str, definitions: &Vec<Def>) -> (r: bool)
+        ensures r == (self.reg().dom().contains(nkey(*name)) && exists|k: int| 0 <= k < definitions@.len() && (#[trigger] definitions@[k]) == self.reg()[nkey(*name)])
+    { unimplemented!() }
+    #[verifier::external_body]
+    fn index_exists(&self, name: &Str) -> (r: bool) ensures r == self.reg().dom().contains(nkey(*name)) { unimplemented!() }
+    // Database::drop_index (IndexManager::drop_index: registry entry and data removed)
+    #[verifier::external_body]
+    fn drop_index(&mut self, name: &Str) -> (r: Result<(), StorageError>)
+        ensures final(self).view() == old(self).view(),
+                r is Ok ==> final(self).reg() == old(self).reg().remove(nkey(*name)), r is Err ==> final(self).reg() == old(self).reg()
+    { unimplemented!() }
+    // Database::create_index (built from the rows of the table the name resolves to: unit I-resolve)
+    #[verifier::external_body]
+    fn create_index(&mut self, index_name: Str, table_name: Str, unique: bool, columns: Cols) -> (r: Result<(), StorageError>)
+        ensures final(self).view() == old(self).view(),
+                r is Ok ==> final(self).reg() == old(self).reg().insert(nkey(index_name), Def { index_name, table_name, unique, columns }),
+                r is Err ==> final(self).reg() == old(self).reg()
     { unimplemented!() }
     // self.list_indexes().iter().filter_map(|n| self.get_index(n).map(|m| m.table_name.clone())).collect::<BTreeSet<_>>()
     #[verifier::external_body]
@@ -110,7 +154,7 @@ impl Database {
     // Database::rebuild_indexes (Operations::rebuild_indexes: unit I-resolve)
     #[verifier::external_body]
     fn rebuild_indexes(&mut self, t: &Str)
-        ensures final(self).view() == old(self).view(), final(self).indexed() == old(self).indexed(), final(self).idx_fresh(*t),
+        ensures final(self).view() == old(self).view(), final(self).indexed() == old(self).indexed(), final(self).idx_fresh(*t), final(self).reg() == old(self).reg(),
                 forall|u: Str| old(self).idx_fresh(u) ==> final(self).idx_fresh(u)
     { unimplemented!() }
 
@@ -168,18 +212,49 @@ ITEMS = {
 
     'rollback_transaction': dict(
         file=_F, path='impl Database::fn rollback_transaction', ret='res',
-        rewrites=[('re', r'self\.lifecycle\.perform_rollback\(&mut self\.catalog, &mut self\.tables\)\?;', 'self.perform_rollback()?;', 1),
+        rewrites=[('re', r'self\.lifecycle\.perform_rollback\(&mut self\.catalog, &mut self\.tables\)\?;', 'self.perform_rollback()?; let ghost reg0__ = self.reg(); let ghost snap__ = self.snapshot();', 1),
+                  ('re', r'self\.indexes_at_begin\.take\(\)', 'self.take_indexes_at_begin()', 1),
+                  ('re', r'for index_name in self\.list_indexes\(\) \{', 'let names__ = self.list_indexes(); let mut li__: usize = 0; while li__ < names__.len() { let index_name = names__[li__].clone(); li__ = li__ + 1;', 1),
+                  ('re', r'(?s)let kept = self\.get_index\(&index_name\)\.is_some_and\(\|current\| \{\s*definitions\.iter\(\)\.any\(\|d\| \{\s*d\.index_name == current\.index_name\s*&& d\.table_name == current\.table_name\s*&& d\.unique == current\.unique\s*&& d\.columns == current\.columns\s*\}\)\s*\}\);',
+                   'let kept = self.is_kept(&index_name, &definitions);', 1),
+                  ('re', r'for d in definitions \{', 'let mut di__: usize = 0; while di__ < definitions.len() { let d = definitions[di__].clone(); di__ = di__ + 1;', 1),
                   ('re', r'let indexed_tables: std::collections::BTreeSet<String> = self\s*\.list_indexes\(\)\s*\.iter\(\)\s*\.filter_map\(\|index_name\| self\.get_index\(index_name\)\.map\(\|m\| m\.table_name\.clone\(\)\)\)\s*\.collect\(\);', 'let indexed_tables = self.indexed_tables();', 1),
                   ('re', r'for table_name in indexed_tables \{', 'let mut ti__: usize = 0; while ti__ < indexed_tables.len() { let table_name = indexed_tables[ti__].clone(); ti__ = ti__ + 1;', 1)],
         loops={0: '''
-            invariant ti__ <= indexed_tables@.len(), indexed_tables@ == self.indexed(),
+            invariant li__ <= names__@.len(), self.reg_wf(), self.reg().submap_of(reg0__),
+                forall|x: Seq<char>| #![trigger reg0__.dom().contains(x)] reg0__.dom().contains(x) <==> exists|k: int| 0 <= k < names__@.len() && nkey(#[trigger] names__@[k]) == x,
+                // a name not yet visited is still registered; a visited one is registered only if its definition is one of those at BEGIN
+                forall|k: int| #![trigger names__@[k]] li__ <= k < names__@.len() && !(exists|j: int| 0 <= j < li__ && nkey(#[trigger] names__@[j]) == nkey(names__@[k])) ==> self.reg().dom().contains(nkey(names__@[k])),
+                forall|k: int| #![trigger names__@[k]] 0 <= k < li__ && self.reg().dom().contains(nkey(names__@[k])) ==> exists|q: int| 0 <= q < definitions@.len() && (#[trigger] definitions@[q]) == self.reg()[nkey(names__@[k])],
+            decreases names__@.len() - li__,
+''', 1: '''
+            invariant di__ <= definitions@.len(), self.reg_wf(),
+                forall|x: Seq<char>| #![trigger self.reg().dom().contains(x)] self.reg().dom().contains(x) ==> exists|q: int| 0 <= q < definitions@.len() && (#[trigger] definitions@[q]) == self.reg()[x],
+                forall|q: int| 0 <= q < di__ ==> self.reg().dom().contains(nkey((#[trigger] definitions@[q]).index_name)),
+            decreases definitions@.len() - di__,
+''', 2: '''
+            invariant ti__ <= indexed_tables@.len(), indexed_tables@ == self.indexed(), self.reg() == regx__,
                 forall|k: int| 0 <= k < ti__ ==> self.idx_fresh(#[trigger] indexed_tables@[k]),
             decreases indexed_tables@.len() - ti__,
 '''},
+        proofs=[('@afterloop0', '''proof {
+                assert forall|x: Seq<char>| #![trigger self.reg().dom().contains(x)] self.reg().dom().contains(x) implies exists|q: int| 0 <= q < definitions@.len() && (#[trigger] definitions@[q]) == self.reg()[x] by {
+                    assert(reg0__.dom().contains(x));
+                    let k = choose|k: int| 0 <= k < names__@.len() && nkey(#[trigger] names__@[k]) == x;
+                    assert(nkey(names__@[k]) == x);
+                }
+            }'''),
+                ('let indexed_tables = self.indexed_tables();', 'let ghost regx__ = self.reg();')],
         contract='''
+        requires old(self).reg_wf()
         ensures
             // after a successful ROLLBACK every table that has user-defined indexes has had them rebuilt from the restored rows
             res is Ok ==> forall|k: int| 0 <= k < final(self).indexed().len() ==> final(self).idx_fresh(#[trigger] final(self).indexed()[k]),
+            // .. and the SET of user-defined indexes is the one recorded at BEGIN: every registered index is one of those definitions, every one of those definitions is registered
+            res is Ok ==> (old(self).snapshot() matches Some(defs) ==> {
+                &&& forall|x: Seq<char>| #![trigger final(self).reg().dom().contains(x)] final(self).reg().dom().contains(x) ==> exists|q: int| 0 <= q < defs.len() && (#[trigger] defs[q]) == final(self).reg()[x]
+                &&& forall|q: int| 0 <= q < defs.len() ==> final(self).reg().dom().contains(nkey((#[trigger] defs[q]).index_name))
+            }),
 '''),
     'undo_change': dict(
         file=_F, path='impl Database::fn undo_change', ret='res', rewrites=_R12,
@@ -191,7 +266,7 @@ ITEMS = {
 
 OBLIGATIONS = {
     'rollback_to_savepoint': ['post:undoes_the_changes_since_the_savepoint_last_first', 'proof:loop_invariant'],
-    'rollback_transaction': ['post:indexes_rebuilt_for_every_indexed_table', 'proof:loop_invariant'],
+    'rollback_transaction': ['post:the_set_of_indexes_is_the_one_at_begin__indexes_rebuilt_for_every_indexed_table', 'proof:loop_invariants'],
     'undo_change': ['post:applies_the_inverse_of_the_change__update_removes_the_new_row_and_restores_the_old_one', 'safety:table_exists_before_use'],
 }
 CANARIES = ['canary_undo', 'canary_rollback']
@@ -200,6 +275,7 @@ TRUSTED = [
     'external_body tm_rollback_to_savepoint: TransactionManager::rollback_to_savepoint returns the changes recorded since the savepoint (proved on the real function in unit X-sp) and does not touch table contents',
     'external_body require_table / tbl_remove_row / tbl_insert (R12): get_table_mut(&name).ok_or_else(..)? followed by table.remove_row / table.insert, as operations on the bag of the named table. ASSUMED (proved on the real Table functions in unit K-table): remove_row removes exactly one row equal to the STORED FORM of the given row, insert adds its stored form; tbl_position_of / tbl_update_row = the position idiom (literal equality) and Table::update_row. Earlier wording: remove_row removes exactly one equal row or fails with RowNotFound (cf. unit K-table); insert adds exactly the given row (it was in this table before: already normalised)',
     'NOT under contract: that INSERT / UPDATE / DELETE executors RECORD every change (Database::insert_row does; UpdateExecutor / DeleteExecutor / REPLACE / ON DUPLICATE KEY UPDATE / FK cascades do since the two C14 fixes, shown by SQL reproductions only)',
+    'rollback_transaction: the registry of user-defined indexes as a map normalized name -> Def (IndexMetadata; Cols = Vec<IndexColumn> opaque) with external_body take_indexes_at_begin (`self.indexes_at_begin.take()`), list_indexes (exactly the registry keys), is_kept (the `get_index(..).is_some_and(|current| definitions.iter().any(|d| ..four field comparisons..))` statement, ASSUMED to decide "registered and its definition is one of those"), index_exists, drop_index, create_index (effects on the registry only; what an index is built from: unit I-resolve); nkey = normalize_index_name uninterpreted; precondition reg_wf (entries keyed by the normalized name of their definition). NOT under contract: that begin_transaction records exactly the current definitions and commit clears them',
     'external_body perform_rollback (TransactionManager::rollback_transaction: snapshot restore, not under contract here), indexed_tables (the list_indexes / get_index iterator chain), rebuild_indexes (unit I-resolve): by assumed contracts; undo_change\'s own calls to rebuild_indexes are dropped from the bag view (they do not change table contents)',
     'row ORDER inside a table after a rollback is not part of the contract (undo re-appends rows)',
 ]
